@@ -119,12 +119,12 @@ add("C20", "F-const-line", "open",
     "some producers carry no source line (constants made from int expressions, bundle constants, bundle arithmetic): Signal v1 = k1 | in2.type is described '[<string>] v1 (value=0 (input))'",
     {"kind": "scalar", "prog": Program((S("in2", "signal-A", 0), Decl("int", "k1", Num(0)), Decl("Signal", "v1", Proj(Ref("k1"), TypeOf("in2"))))), "optimize": False, **C20},
     trigger="constant-description-without-line")
-add("C20", "F-call-alias", "open",
+add("C20", "X-call-alias", "fixed",
     "a call whose result is just one of its Signal arguments (f(in1, in2, 1) with body `Signal t0 = in1p; return p2 > 0 : t0;`) leaves the result name unlabelled and without an anchor",
     {"kind": "func", "prog": Program((S("in1", "signal-A", 0), S("in2", "signal-B", 0),
         Func("f1", (("Signal", "q1"), ("Signal", "p1"), ("Signal", "p2")), (Decl("Signal", "t0", Ref("q1")), Return(Cond(Bin(">", Ref("p2"), Num(0)), Ref("t0"))))),
         Decl("Signal", "r1", Call("f1", (Ref("in1"), Ref("in2"), Num(1)))))), "optimize": True, **C20},
-    trigger="call-result-aliases-input")
+    commit="148e208")
 add("C20", "F-bundle-alias", "open",
     "an unconsumed alias of a bundle (Bundle b4 = b1;) is neither labelled nor anchored",
     {"kind": "bundle", "prog": Program((S("in1", "steam", 2), Decl("Bundle", "b1", BLit((SigLit("electronic-circuit", Num(3)), Ref("in1")))),
@@ -136,6 +136,35 @@ add("C01", "F-three-same", "open",
     case01([S("in1", "iron-plate", 0), S("in2", "iron-plate", 0), S("in3", "iron-plate", 3),
             Decl("Signal", "v1", Bin("||", Bin("<=", Ref("in2"), Ref("in1")), Bin("<=", Ref("in3"), Num(2))))], [{"in1": 0, "in2": 0, "in3": 3}]),
     trigger="three-same-signal-sources")
+C14X = lang_prog_empty = Program(())
+add("C14", "X-bundle-from-int", "fixed", "'Bundle b = 5;' was accepted (empty blueprint)",
+    {"rule": "bundle-from-int", "how": "top", "extra": C14X, "pos": 0, "cli": False, "optimize": True}, commit="62df0c9")
+add("C14", "X-zero-step-var", "fixed", "'int s = 0; for i in 0..5 step s {..}' was accepted (zero iterations)",
+    {"rule": "zero-step-var", "how": "top", "extra": C14X, "pos": 0, "cli": False, "optimize": True}, commit="eb083a9")
+add("C14", "F-second-write-loop", "open",
+    "a write inside a loop body to a cell declared outside the loop executes once per iteration (two writes to one cell) and is accepted; "
+    "the analyser caches the type of the write node and never sees the second iteration",
+    {"rule": "second-write-via-loop", "how": "top", "extra": C14X, "pos": 0, "cli": False, "optimize": True},
+    trigger="accepts-second-write-via-loop")
+add("C13", "X-pool", "fixed", "Signal x = 5; was allocated signal-A although the program uses (\"signal-A\", 3) explicitly; both shared a channel in {x, y}",
+    {"prog": Program((Decl("Signal", "u1", Num(5)), S("t1", "signal-A", 3), Decl("Bundle", "b1", BLit((Ref("u1"), Ref("t1")))))),
+     "vals": [{"u1": 5, "t1": 3}, {"u1": -2, "t1": 9}], "mixes": 1, "optimize": True, "sched": {"seed": 0}, "opts": {}}, commit="c894f3f")
+add("C01", "X-const-left-compare", "fixed", "'50 > a' was emitted as 'signal-0 > a' (constant on the left of a comparison)",
+    case01([S("a", "signal-A", 17), Decl("Signal", "y", Bin(">", Num(50), Ref("a")))], [{"a": 17}, {"a": 60}]), commit="a426aa2")
+add("C01", "X-bool-shortcut", "fixed", "'in2 != 0 && in1 + 0' multiplied instead of testing in1 != 0 (input declared 0 counted as boolean)",
+    case01([Decl("Signal", "in1", Num(0)), Decl("Signal", "in2", Num(0)),
+            Decl("Signal", "v1", Bin("&&", Bin("!=", Ref("in2"), Num(0)), Bin("+", Ref("in1"), Num(0))))], [{"in1": -1, "in2": 1}]), commit="b537e40")
+add("C01", "X-proj-into-copy-decider", "fixed", "((j1 > 10 : j2) | \"signal-0\") ** 4 retyped the copy-count decider and read a signal that is not on its input",
+    case01([S("j1", "signal-C", 55), S("j2", "signal-D", -554),
+            Decl("Signal", "w3", Bin("**", Proj(Cond(Bin(">", Ref("j1"), Num(10)), Ref("j2")), "signal-0"), Num(4)))], [{"j1": 55, "j2": -554}, {"j1": 1, "j2": 3}]),
+    commit="0f792f9")
+add("C02", "X-gate-moves-bundle", "fixed", "all(b) >= 5 next to a gate (c > 0) : b of the same bundle read red while the gate had moved b to green",
+    case01([S("in1", "signal-A", 0), Decl("Bundle", "b1", BLit((SigLit("steam", Num(3)),))), Decl("Signal", "q1", Bin(">=", AllOf(Ref("b1")), Num(5))),
+            Decl("Bundle", "b4", Cond(Bin(">", Ref("in1"), Num(0)), Ref("b1")))], [{"in1": 0}, {"in1": 4}]), commit="4bb8c14")
+add("C10", "X-logic-const-operand", "fixed", "(v1 >> 16) && ((\"steam\", 29) AND 10) was 0 without optimisation (constant operand compared through signal-0)",
+    {"kind": "scalar", "prog": Program((S("v1", "stone", -1),
+        Decl("Signal", "v2", Bin("&&", Bin(">>", Ref("v1"), Num(16)), Bin("AND", SigLit("steam", Num(29)), Num(10)))))),
+     "steps": [{"v1": -1}, {"v1": 0}], "opts": {}, "sched": {"seed": 0}}, commit="29a8d99")
 
 
 def main():
